@@ -1,7 +1,17 @@
 export GOFLAGS=-mod=mod GOPROXY=off GOSUMDB=off GOTOOLCHAIN=local CGO_ENABLED=1
 export VERIF_ROOT="$(cd "$(dirname "${BASH_SOURCE[0]}")/.." && pwd)"
 mkdir -p "$VERIF_ROOT/.build" "$VERIF_ROOT/.scratch" "$VERIF_ROOT/evidence" "$VERIF_ROOT/replays"
-# build_rig <name>: rebuilds the rig binary from /repo's current working tree, hooks on, race detector on
+# build_rig <name>: rebuilds the rig binary from the repository's current working tree, hooks on (-tags verif),
+# race detector on. The repository is /repo; VERIF_REPO=<dir> points the same build at another checkout
+# (used only for trying seeded changes in a scratch worktree without touching /repo).
 build_rig() {
-  ( cd "$VERIF_ROOT/harness" && go build -race -tags verif -o "$VERIF_ROOT/.build/$1" "./rigs/$1" ) && echo "$VERIF_ROOT/.build/$1"
+  local repo="${VERIF_REPO:-/repo}"
+  if [ "$repo" = /repo ]; then
+    ( cd "$VERIF_ROOT/harness" && go build -race -tags verif -o "$VERIF_ROOT/.build/$1" "./rigs/$1" ) && echo "$VERIF_ROOT/.build/$1"
+  else
+    local h; h=$(echo "$repo" | md5sum | cut -c1-8)
+    local mf="$VERIF_ROOT/.build/alt-$h.mod"
+    sed "s#=> /repo/#=> $repo/#" "$VERIF_ROOT/harness/go.mod" > "$mf" && cp "$VERIF_ROOT/harness/go.sum" "$VERIF_ROOT/.build/alt-$h.sum" || return 1
+    ( cd "$VERIF_ROOT/harness" && go build -modfile="$mf" -race -tags verif -o "$VERIF_ROOT/.build/$1-$h" "./rigs/$1" ) && echo "$VERIF_ROOT/.build/$1-$h"
+  fi
 }
